@@ -2,6 +2,9 @@ package props
 
 import (
 	"fmt"
+	mbits "math/bits"
+	"sync"
+	"unsafe"
 
 	"github.com/openacid/low/bitmap"
 	"github.com/openacid/low/bmtree"
@@ -27,7 +30,7 @@ func init() {
 		ID:     "C11",
 		Word32: true,
 		Level:  "exploration",
-		Rule: "E1 bounded-exhaustive enumeration: every string of length ≤N over {00,ff,a5,5a,01,80} (plus every single byte value, alone and in a 3-byte string, and 12 strings of 11..66 bytes) × every start bit in [0, 8·len+9] × every width 0..32: FromStr32 (count and value) and, for widths ≤30, PathOf against the slice [from, from+k) of the string's '0'/'1' rendering; PathsOf on every key list of length ≤4 over 5 short keys × dedup on/off × a (from,height) grid against map + adjacent-dedup of the reference paths. " +
+		Rule: "E1 bounded-exhaustive enumeration: every string of length ≤N over {00,ff,a5,5a,01,80} (plus every single byte value, alone and in a 3-byte string, and 12 strings of 11..66 bytes) × every start bit in [0, 8·len+9] (and, for 5 strings, 56 far start bits: 2^16, 2^24, 2^28, 2^29, 2^30 (±1) and the last 41 int32 values) × every width 0..32 (and, on 64-bit builds, strings of 2^28-1, 2^28, 2^28+1 bytes - 2^31 bits, one more than an int32 counts - × start bits at both ends, around 2^30 and around the last int32 × 9 widths, against a byte-level reference): FromStr32 (count and value) and, for widths ≤30, PathOf against the slice [from, from+k) of the string's '0'/'1' rendering; PathsOf on every key list of length ≤4 over 5 short keys × dedup on/off × a (from,height) grid against map + adjacent-dedup of the reference paths. " +
 			"A case is one call; non-trivial when 0 < k (some bit is taken from the string) and the string is not all-zero.",
 		Assumptions: []string{"strings longer than N and other byte values are not enumerated (the function reads at most 5 bytes; spans of 1..5 bytes and starts before/at/after the end are all inside)"},
 		Run:         c11Run,
@@ -215,9 +218,107 @@ func c11Run(c *mc.Ctx) {
 		c.Expect(evals)
 		c.Add("big_string_cases", evals)
 	}
+	// far starts: start bits far beyond the end of the string, up to the last int32 (the statement
+	// bounds from only from below). FromStr32 takes from+w as an int32, so it gets every (from, w)
+	// with from+w ≤ MaxInt32; PathOf and PathsOf take from and the height separately and get every pair.
+	{
+		const maxI32 = int32(1<<31 - 1)
+		var far []int32
+		for _, b := range []int32{1 << 16, 1 << 24, 1 << 28, 1 << 29, 1 << 30} {
+			far = append(far, b-1, b, b+1)
+		}
+		for d := int32(40); d >= 0; d-- {
+			far = append(far, maxI32-d)
+		}
+		var evals int64
+		for si, s := range []string{"", "\xff", "abc", "\x80\x00\x00\x00\x01", "stemSTEMstem\xa5"} {
+			bits := ref.Bits(s)
+			for _, from := range far {
+				for w := int32(0); w <= 32; w++ {
+					if from <= maxI32-w {
+						wk, wv := c11Ref(bits, from, w)
+						k, v, p := fromStr32(s, from, from+w)
+						if p != "" || k != wk || v != wv {
+							c.Fail(3<<50|int64(si)<<40|int64(from)<<6|int64(w), "FromStr32", "FromStr32/far", c11Case{S: gen.Bytes(s), From: from, W: w}, fmt.Sprintf("%s(%d,%#x)", p, k, v), fmt.Sprintf("(%d,%#x)", wk, wv))
+						}
+						evals++
+					}
+					if w <= 30 {
+						wp := c11RefPath(bits, from, w)
+						gp, p := pathOf(s, from, w)
+						if p != "" || gp != wp {
+							c.Fail(3<<50|int64(si)<<40|int64(from)<<6|int64(w), "PathOf", "PathOf/far", c11Case{S: gen.Bytes(s), From: from, W: w}, fmt.Sprintf("%s%#x", p, gp), fmt.Sprintf("%#x", wp))
+						}
+						evals++
+					}
+				}
+			}
+		}
+		c.Count(evals, evals)
+		c.Expect(evals)
+		c.Add("far_start_cases", evals)
+	}
+	// giant strings (64-bit builds): 2^28-1, 2^28 and 2^28+1 bytes - at 2^28 bytes the string holds
+	// 2^31 bits, one more than an int32 can count; every start bit that an int32 can name is still a
+	// legal argument. Reference computed from the bytes directly.
+	if mbits.UintSize == 64 {
+		const maxI32 = int64(1<<31 - 1)
+		lens := []int{1<<28 - 1, 1 << 28, 1<<28 + 1}
+		var evals int64
+		var mu sync.Mutex
+		c.Par(len(lens), func(li int) {
+			l := lens[li]
+			sB := c11GiantString(l)
+			var n int64
+			var froms []int64
+			for _, f := range []int64{0, 1, 4, 7, 8, 9, 1 << 30, maxI32 - 40, 8*int64(l) - 1, 8*int64(l) - 8, 8*int64(l) - 9, 8*int64(l) - 33, 8*int64(l) - 41} {
+				if f >= 0 && f <= maxI32 {
+					froms = append(froms, f)
+				}
+			}
+			for _, w := range []int32{0, 1, 7, 8, 9, 25, 30, 31, 32} {
+				fs := append([]int64(nil), froms...)
+				for _, d := range []int64{0, 1, 7, 8, 9} {
+					fs = append(fs, maxI32-int64(w)-d) // the window ends at (or just before) the last int32
+				}
+				for _, f64 := range fs {
+					from := int32(f64)
+					if f64+int64(w) <= maxI32 {
+						wk, wv := c11RefBytes(sB, from, w)
+						k, v, p := fromStr32(sB, from, from+w)
+						if p != "" || k != wk || v != wv {
+							c.Fail(4<<50|int64(li)<<40|f64<<6|int64(w), "FromStr32", "FromStr32/giant", c11Case{Big: l, From: from, W: w}, fmt.Sprintf("%s(%d,%#x)", p, k, v), fmt.Sprintf("(%d,%#x)", wk, wv))
+						}
+						n++
+					}
+					if w <= 30 {
+						k, v := c11RefBytes(sB, from, w)
+						wp := ref.PathWord(v>>uint(w-k), int(k), int(w))
+						gp, p := pathOf(sB, from, w)
+						if p != "" || gp != wp {
+							class := "PathOf/giant"
+							if f64+int64(w) > maxI32 && k > 0 {
+								// from+h is not an int32 although bits of the string lie at from: PathOf cannot
+								// name the window end it hands to FromStr32 (known finding, see known_findings.txt)
+								class = "PathOf/giant/window-end-beyond-int32"
+							}
+							c.Fail(4<<50|int64(li)<<40|f64<<6|int64(w), "PathOf", class, c11Case{Big: l, From: from, W: w}, fmt.Sprintf("%s%#x", p, gp), fmt.Sprintf("%#x", wp))
+						}
+						n++
+					}
+				}
+			}
+			mu.Lock()
+			evals += n
+			mu.Unlock()
+		})
+		c.Count(evals, evals)
+		c.Expect(evals)
+		c.Add("giant_string_cases", evals)
+	}
 	// PathsOf
 	keyAlpha := []string{"", "\x00", "\xa5", "\xa5\x5a", "\xa5\x5a\xff"}
-	grid := [][2]int32{{0, 0}, {0, 1}, {0, 8}, {0, 12}, {3, 4}, {3, 13}, {8, 8}, {8, 9}, {12, 30}, {17, 5}}
+	grid := [][2]int32{{0, 0}, {0, 1}, {0, 8}, {0, 12}, {3, 4}, {3, 13}, {8, 8}, {8, 9}, {12, 30}, {17, 5}, {1<<31 - 1, 9}, {1<<31 - 5, 8}, {1 << 30, 30}}
 	var lists [][]string
 	for l := 0; l <= 4; l++ {
 		gen.Product(len(keyAlpha), l, func(ix []int) {
@@ -258,8 +359,49 @@ func c11Run(c *mc.Ctx) {
 	})
 }
 
+// c11GiantString: l bytes (l around 2^28), mostly the same generator as the big strings.
+func c11GiantString(l int) string {
+	b := make([]byte, l)
+	for i := range b {
+		b[i] = byte(i*167 + i>>7 + 3)
+	}
+	return unsafe.String(&b[0], len(b))
+}
+
+// c11RefBytes is the statement's (k, value) computed from the bytes, in int64
+// arithmetic, for strings too long to render as a '0'/'1' string.
+func c11RefBytes(s string, from, w int32) (int32, uint64) {
+	k := 8*int64(len(s)) - int64(from)
+	if k > int64(w) {
+		k = int64(w)
+	}
+	if k <= 0 {
+		return 0, 0
+	}
+	var v uint64
+	for j := int64(0); j < k; j++ {
+		pos := int64(from) + j
+		bit := uint64(s[pos>>3]>>uint(7-pos&7)) & 1
+		v = v<<1 | bit
+	}
+	return int32(k), v << uint(int64(w)-k)
+}
+
 func c11Judge(kind string, cs c11Case) (got, want string) {
 	s := string(cs.S)
+	if cs.Big >= 1<<27 {
+		s = c11GiantString(cs.Big)
+		switch kind {
+		case "FromStr32":
+			wk, wv := c11RefBytes(s, cs.From, cs.W)
+			k, v, p := fromStr32(s, cs.From, cs.From+cs.W)
+			return fmt.Sprintf("%s(%d,%#x)", p, k, v), fmt.Sprintf("(%d,%#x)", wk, wv)
+		case "PathOf":
+			k, v := c11RefBytes(s, cs.From, cs.W)
+			gp, p := pathOf(s, cs.From, cs.W)
+			return fmt.Sprintf("%s%#x", p, gp), fmt.Sprintf("%#x", ref.PathWord(v>>uint(cs.W-k), int(k), int(cs.W)))
+		}
+	}
 	if cs.Big > 0 {
 		b := make([]byte, cs.Big)
 		for i := range b {
